@@ -345,3 +345,7 @@ mod tests {
         assert_eq!(res, TryRecvError::Empty);
     }
 }
+
+#[cfg(all(test, feature = "pendulum_project_ntpd_rs_verif"))]
+#[path = "../../../../../verif/harness/ntpd/daemon_spawn_standard.rs"]
+mod verif_daemon_spawn_standard;
